@@ -9,13 +9,20 @@ BUILD = os.path.join(VERIF, "build")
 OCAML_BUILD = os.path.join(BUILD, "ocaml")
 HARNESS_DIR = os.path.join(VERIF, "harness")
 HARNESS_BIN = os.path.join(BUILD, "target", "debug", "vharness")
+# VERIF_REPO: the tree whose code is checked.  Default (and the only value the registered commands use): /repo.
+# The seeded-change trials (lib/seed_try.sh) point it at a scratch worktree so that /repo itself stays untouched.
+REPO = os.environ.get("VERIF_REPO", "/repo").rstrip("/") or "/repo"
+ALT = REPO != "/repo"
+if ALT:
+    HARNESS_DIR = os.path.join(BUILD, "harness_alt")
+    HARNESS_BIN = os.path.join(BUILD, "target_alt", "debug", "vharness")
 DRIVER_BIN = os.path.join(OCAML_BUILD, "_build", "default", "main.exe")
 EVIDENCE = os.path.join(VERIF, "evidence")
 REPLAYS = os.path.join(EVIDENCE, "replays")
 NCPU = min(16, os.cpu_count() or 4)
 
 ENV = dict(os.environ)
-ENV.update({"CARGO_NET_OFFLINE": "true", "CARGO_TARGET_DIR": os.path.join(BUILD, "target")})
+ENV.update({"CARGO_NET_OFFLINE": "true", "CARGO_TARGET_DIR": os.path.join(BUILD, "target_alt" if ALT else "target")})
 
 FORBIDDEN = re.compile(r"\b(Admitted|admit|Axiom|Axioms|Parameter|Parameters|Conjecture|Conjectures|Hypothesis|Hypotheses|Variable|Variables)\b|Unset\s+Guard|bypass_check|type-in-type|impredicative-set|Admit\s+Obligations|native_compute")
 # Variable/Hypothesis are legal inside Sections only; files that use Sections are listed here
@@ -45,7 +52,19 @@ class BrokenTie(Exception):
 
 def build_harness():
     os.makedirs(BUILD, exist_ok=True)
-    lock_src = "/repo/Cargo.lock"
+    if ALT:
+        # a copy of the harness crate whose dependencies point at the scratch tree
+        src = os.path.join(VERIF, "harness")
+        os.makedirs(os.path.join(HARNESS_DIR, "src"), exist_ok=True)
+        for f in glob.glob(os.path.join(src, "src", "*.rs")):
+            dst = os.path.join(HARNESS_DIR, "src", os.path.basename(f))
+            if not os.path.exists(dst) or open(dst).read() != open(f).read():
+                open(dst, "w").write(open(f).read())
+        toml = open(os.path.join(src, "Cargo.toml")).read().replace('"/repo/', '"%s/' % REPO)
+        tp = os.path.join(HARNESS_DIR, "Cargo.toml")
+        if not os.path.exists(tp) or open(tp).read() != toml:
+            open(tp, "w").write(toml)
+    lock_src = os.path.join(REPO, "Cargo.lock")
     lock_dst = os.path.join(HARNESS_DIR, "Cargo.lock")
     if os.path.exists(lock_src):
         try:
